@@ -44,6 +44,10 @@ Definition mode_resid (n p : nat) (X u : mat) : mat := msub K n p X (mode_recon 
 Definition resid_sqcov (n p1 p2 : nat) (X Y u v : mat) : F :=                                               (* norm(dX^H dY / (n - 1)) ** 2 *)
   frob2 K p1 p2 (cross_cov n p1 p2 (mode_resid n p1 X u) (mode_resid n p2 Y v)).
 Definition scf_src (n p1 p2 : nat) (X Y u v : mat) (tsc : F) : F := fsub K (f1 K) (fdiv K (resid_sqcov n p1 p2 X Y u v) tsc).
+(* fraction_variance_X_explained_by_X / _Y_explained_by_Y for one mode (identity whitening, centred field: the N-1 divisors of the two
+   variances cancel): one minus the squared norm of the residual over the squared norm of the field *)
+Definition fve_src (n p : nat) (X u : mat) : F := fsub K (f1 K) (fdiv K (frob2 K n p (mode_resid n p X u)) (frob2 K n p X)).
+
 Definition scf_modes (n p1 p2 k : nat) (X Y Q1 Q2 : mat) (tsc : F) : vec :=
   vtab k (fun i => let x := scf_src n p1 p2 X Y (col p1 i Q1) (col p2 i Q2) tsc in if fleb K x (f0 K) then f0 K else x).
 
